@@ -53,7 +53,7 @@ class C01(PropertyCheck):
             line = pyarchive.render_case(e, 0, [("from", [barandom.hexb(f)]), ("lvl", ["3"])])
             cs = Case(line, "knob-files")
             r = ref_of_content(c, patched)
-            self.meta[line] = (r.state(1), "B" + r.canonical_image()[0].hex() if r.in_domain() else None)
+            self.meta[cs.line] = (r.state(1), "B" + r.canonical_image()[0].hex() if r.in_domain() else None)
             cases.append(cs)
         # (C) game files
         for path in sorted(glob.glob(os.path.join(REPO, "resources", "test", "*"))):
